@@ -3,6 +3,8 @@ package e2e
 import (
 	"encoding/json"
 	"errors"
+	"math"
+	"strconv"
 	"strings"
 	"sync/atomic"
 	"time"
@@ -11,6 +13,7 @@ import (
 	"github.com/dfklegend/cell2/apimapper/apientry"
 	"github.com/dfklegend/cell2/apimapper/registry"
 	"github.com/dfklegend/cell2/node/app"
+	"github.com/dfklegend/cell2/node/builtin/channel"
 	"github.com/dfklegend/cell2/node/client/impls"
 	cs "github.com/dfklegend/cell2/node/client/session"
 )
@@ -26,7 +29,11 @@ type Arg struct {
 	N1, N2 int
 	Seq0   int64
 	Pad    int // extra payload bytes per push
-	Ms     int // block: real milliseconds
+	// how Send issues its pushes: 0 PushMessageById to the requester; 1 PushMessageByIds to
+	// Ids; 2 broadcast through a channel holding Ids (all on the requester's front)
+	Mode int
+	Ids  []uint32
+	Ms   int // block: real milliseconds
 	// session scripts (C10)
 	K string
 	V *Val
@@ -131,6 +138,12 @@ func (h *H) Boom(ctx *impls.HandlerContext, a *Arg, cb apientry.HandlerCBFunc) {
 	panic("harness panic")
 }
 
+// Unenc completes successfully with a result the client serializer cannot encode (JSON: +Inf).
+func (h *H) Unenc(ctx *impls.HandlerContext, a *Arg, cb apientry.HandlerCBFunc) {
+	h.n.logInvocation(ctx, "unenc", a.T)
+	apientry.CheckInvokeCBFunc(cb, nil, &struct{ Ratio float64 }{math.Inf(1)})
+}
+
 // Never returns without ever completing.
 func (h *H) Never(ctx *impls.HandlerContext, a *Arg, cb apientry.HandlerCBFunc) {
 	h.n.logInvocation(ctx, "never", a.T)
@@ -155,19 +168,41 @@ func (h *H) Block(ctx *impls.HandlerContext, a *Arg, cb apientry.HandlerCBFunc) 
 	apientry.CheckInvokeCBFunc(cb, nil, h.reply(ctx, s, "echo", a))
 }
 
-// Send issues N1 pushes, the response, then N2 pushes towards the calling client.  Every item
-// (pushes and the response) carries the issuing instance, the request tag, its position in the
-// script and the instance's issue counter, taken at the moment the item is issued.
+// Send issues N1 pushes, the response, then N2 pushes.  Every item (pushes and the response)
+// carries the issuing instance, the request tag, its position in the script and the
+// instance's issue counter, taken at the moment the item is issued.  Mode selects the API the
+// pushes go through: to the requester alone (PushMessageById), to a list of connections of the
+// requester's front (PushMessageByIds), or broadcast through a channel holding that list.
 func (h *H) Send(ctx *impls.HandlerContext, a *Arg, cb apientry.HandlerCBFunc) {
 	s := h.n.logInvocation(ctx, "send", a.T)
 	r := h.reply(ctx, s, "sent", a)
 	pad := strings.Repeat("x", a.Pad)
 	ctr := &h.n.ctr[InstOf(s.name)]
 	seq := a.Seq0
+	var ch *channel.Channel
+	chName := ""
+	if a.Mode == 2 {
+		svc := s.GetComponent("channel").(*impls.ChannelComponent).GetCS()
+		chName = "e2e-" + s.name + "-" + strconv.FormatInt(a.T, 10)
+		for _, id := range a.Ids {
+			svc.AddToChannel(chName, r.Front, id)
+		}
+		ch = svc.GetChannel(chName)
+		defer svc.DeleteChannel(chName)
+	}
 	push := func(k int) {
 		for i := 0; i < k; i++ {
 			*ctr++
-			app.PushMessageById(s.NodeService, r.Front, r.NetId, "onSeq", &PushBody{Svc: s.name, T: a.T, Seq: seq, Ctr: *ctr, Pad: pad})
+			body := &PushBody{Svc: s.name, T: a.T, Seq: seq, Ctr: *ctr, Pad: pad}
+			switch {
+			case a.Mode == 1:
+				app.PushMessageByIds(s.NodeService, r.Front, a.Ids, "onSeq", body)
+			case a.Mode == 2 && ch != nil:
+				ch.PushMessage("onSeq", body)
+			case a.Mode == 2:
+			default:
+				app.PushMessageById(s.NodeService, r.Front, r.NetId, "onSeq", body)
+			}
 			seq++
 		}
 	}
